@@ -384,6 +384,30 @@ bga%(u)s(n: SI): Integer == {
     return d, [], "bga%s(%d)" % (u, max(2, min(n, 500)))
 
 
+def b_rawrec(u, rng, n):
+    """Raw records mixing narrow scalar fields with pointers to separately allocated objects."""
+    narrow = rng.choice(["Character", "Character", "Boolean"])
+    lit = 'char "a"' if narrow == "Character" else "true"
+    d = '''
+rwm%(u)s(i: SI): RawRecord(c: %(T)s, n: Integer) == {
+	import from RawRecord(c: %(T)s, n: Integer), %(T)s;
+	big: Integer := 2^70;
+	[%(lit)s, big + i::Integer]
+}
+rwr%(u)s(n: SI): Integer == {
+	import from RawRecord(c: %(T)s, n: Integer), List RawRecord(c: %(T)s, n: Integer);
+	l: List RawRecord(c: %(T)s, n: Integer) := nil;
+	for i: SI in 1..n repeat l := cons(rwm%(u)s i, l);
+	junk: List SI := nil;
+	for i: SI in 1..%(churn)d repeat junk := cons(i, junk);
+	s: Integer := 0;
+	for r in l repeat s := s + r.n;
+	s + (#junk)::Integer
+}
+''' % dict(u=u, T=narrow, lit=lit, churn=rng.choice([3000, 30000, 200000]))
+    return d, [], "rwr%s(%d)" % (u, max(2, min(n, 300)))
+
+
 def b_dyndom(u, rng, n):
     """Domains created at run time (List T for growing T): the runtime's lazy domain
     objects and its caches allocate and are kept alive across collections."""
@@ -480,7 +504,7 @@ BLOCKS = [("list", b_list, 4), ("record", b_record, 4), ("node", b_node, 2), ("c
           ("array", b_array, 3), ("domain", b_domain, 1),
           ("exn", b_exn, 2), ("union", b_union, 2), ("float", b_float, 1), ("tokens", b_tokens, 1),
           ("deeprec", b_deeprec, 2), ("ptrarray", b_ptrarray, 2), ("dyndom", b_dyndom, 2),
-          ("strops", b_strops, 2), ("arrgrow", b_arrgrow, 2), ("bigarray", b_bigarray, 3),
+          ("strops", b_strops, 2), ("arrgrow", b_arrgrow, 2), ("bigarray", b_bigarray, 3), ("rawrec", b_rawrec, 0),	# rawrec: compiled route only (the interpreter has no RRFmt)
           ("frag", b_frag, 0), ("chain", b_chain, 0)]	# weight 0: only when forced (expensive)
 
 
